@@ -682,3 +682,59 @@ def shared_rows_rule(ctx, rep, clause, modules):
                f'writes into it: every row receives the counts of all rows') if hits else '',
               f.loc(hits[0][0]) if hits else f.loc(), clause)
     rep.floor('EFF-shared-row', 'functions scanned', n, 5)
+
+
+_KEY_WITNESS = """
+def pair(fragments, peaks):
+    by_mz = {f.mz: f for f in fragments}
+    return [(by_mz[m], p) for m, p in peaks]
+"""
+
+
+def _value_keyed_tables(fnode):
+    """look-up tables of records keyed by a measured value of the record alone (`by_mz = {f.mz: f for f in fragments}` ...
+    `by_mz[m]`): two records with the same value share one slot"""
+    import ast as _ast
+    measured = {'mz', 'mass', 'neutral_mass', 'intensity'}
+    # only tables that are looked up by key later (`table[k]`, `table.get(k)`): a dict used to drop duplicates and read
+    # through .values() keeps one record per value on purpose
+    looked_up = {y.value.id for y in walk_own(fnode) if isinstance(y, _ast.Subscript) and isinstance(y.ctx, _ast.Load) and
+                 isinstance(y.value, _ast.Name)} | \
+        {y.func.value.id for y in walk_own(fnode) if isinstance(y, _ast.Call) and isinstance(y.func, _ast.Attribute) and
+         y.func.attr == 'get' and isinstance(y.func.value, _ast.Name)}
+    for x in walk_own(fnode):
+        if isinstance(x, _ast.Assign) and len(x.targets) == 1 and isinstance(x.targets[0], _ast.Name) and \
+                x.targets[0].id in looked_up and isinstance(x.value, _ast.DictComp):
+            d = x.value
+            if isinstance(d.key, _ast.Attribute) and d.key.attr in measured and isinstance(d.key.value, _ast.Name) and \
+                    isinstance(d.value, _ast.Name) and d.value.id == d.key.value.id and \
+                    any(isinstance(g.target, _ast.Name) and g.target.id == d.value.id for g in d.generators):
+                yield x
+        if isinstance(x, _ast.For) and isinstance(x.target, _ast.Name):
+            for st in _ast.walk(x):
+                if isinstance(st, _ast.Assign) and len(st.targets) == 1 and isinstance(st.targets[0], _ast.Subscript) and \
+                        isinstance(st.targets[0].slice, _ast.Attribute) and st.targets[0].slice.attr in measured and \
+                        isinstance(st.targets[0].slice.value, _ast.Name) and st.targets[0].slice.value.id == x.target.id and \
+                        isinstance(st.value, _ast.Name) and st.value.id == x.target.id and \
+                        isinstance(st.targets[0].value, _ast.Name) and st.targets[0].value.id in looked_up:
+                    yield st
+
+
+def value_keyed_table_rule(ctx, rep, clause, modules):
+    """KEY: no table of fragments / peaks is keyed by a measured value alone (m/z, mass, intensity): records that agree
+    in that value (isobaric fragments) would share one slot and all but one lose their matches.  Zero instances
+    expected; a built-in witness is read on every run."""
+    import ast as _ast
+    if not list(_value_keyed_tables(_ast.parse(_KEY_WITNESS).body[0])):
+        raise AnalysisError('value-keyed table rule: the built-in witness is no longer recognised')
+    n = 0
+    for f in ctx.program.all_functions():
+        if not any(f.fq.startswith(m + ':') for m in modules):
+            continue
+        n += 1
+        hits = list(_value_keyed_tables(f.node))
+        check(rep, 'KEY', f.fq, 'no table of records keyed by a measured value alone', not hits, 'none',
+              f'`{norm_stmt(hits[0])[:80]}` keeps one record per value: two fragments with exactly the same m/z share a '
+              f'slot, so all but the last lose their matches (and which one survives depends on the input order)'
+              if hits else '', f.loc(hits[0]) if hits else f.loc(), clause)
+    rep.floor('KEY', 'functions scanned for value-keyed tables', n, 5)
